@@ -13,3 +13,4 @@ def run(ck):
     factors.r10_composite_bodies(ck, P)
     floatmask.r5_float_mask(ck, P)
     floatmask.r6_c_mask(ck, P, decided or ())
+    floatmask.r7_set_sat(ck, P)
